@@ -58,6 +58,15 @@ CHECKS = {
  'C08': ('E3 state graph', 'depth-2 operation histories {replace(P,P), replace(A,B), replace(B,A), search(A)} over generated structures with terms, every draw answer of both steps; real MOF files',
          '6 cells x 7 patterns x poses x placements x 4 history variants x 1-2 copies, structures carry symmetric-consistent bonds/angles/dihedrals inside and across matches; identity replacement leaves atom sequence and term tuple sets unchanged; A->B->A restores the (element, position mod lattice) multiset; after A->B a search for A finds nothing; uio66 / uio66-triclinic / hkust-1 identity and Zr->Hf->Zr.',
          'Default replace mode (replace_all=False). Real-file patterns are used bare (their own bonds would rightly be added).', '3/C08'),
+ 'C06': ('E3 state graph', 'explicit-state breadth-first search over histories of replacements with a reference structure; every state also checked through the written LAMMPS file',
+         '12 initial typed 6-atom chains (orthorhombic / tilted cell x full tables and all term kinds / nothing / terms without tables / CIF workflow / tables without terms / extra columns) x 9 pattern pairs (terms on retained / inserted / mixed atoms, forwards and reversed, element swap, parameterised self-replacement, single-atom, 4-atom with dihedral+improper, empty) x replace_all, depth 2 (quick) / 3 (thorough); plus docs Example 3 on uio66.cif (metal centre then linker). Resolved view = RefStructure.replace on every transition; independent LAMMPS reader agrees.',
+         'Histories with overlapping matches are disabled (C07). Known finding K01 (pair table of the CIF workflow) is reported as KNOWN-FINDING; all other aspects of those states are still checked.', '3/C06'),
+ 'C09': ('E3 state graph', 'explicit-state breadth-first search over operation histories of real Atoms objects with a reference model; invariants I1-I5 in every state; start-from-elsewhere differential',
+         '5 initial states x first operation from the full menu (every identity map / deletion subset on small states), breadth-first to depth 3 (quick) / 4 (thorough) over extend, extend-twice-with-offsets, delete, pop, replicate, copy, subset, replace, save+load; cap 8 atoms; states deduplicated by complete observable content; each new state re-derived by replaying its history from the initial state.',
+         'Operation alphabet inside the C06 compatibility domain; inserted-atom positions taken from the result. Trusted: mc/ref/structure.py, mc/ref/lammps.py.', '3/C09'),
+ 'C20': ('E1+E2', 'bounded-exhaustive enumeration of option sets x formats x modes, CLI run in-process and compared byte-for-byte with an API reference driver under identical draw answers; keyword arguments recorded at the module seam',
+         'Every subset of <= 2 (quick) / 3 (thorough) of 7 options + all on + --framework-element x 3 structures x 3 input formats (cif, lmpdat, cml+--extract-uc) x 2 outputs x 3 modes, and the documented example command lines on the real files; every draw answer explored on the CLI side and replayed on the API side.',
+         'In-process through click.testing.CliRunner. Known finding K02 (--framework-element raises AttributeError).', '3/C20'),
 }
 
 NOT_YET = {}
